@@ -119,7 +119,7 @@ case "${1:-}" in
     fi
     exec "$BUILD/mc" replay "$2"
     ;;
-  C03|C11)
+  C03|C11|C18)
     build_mc || exit 2
     export VERIF_TIER="${2:-quick}"
     if [ "$1" = C11 ]; then build_race; fi
